@@ -564,7 +564,8 @@ impl<const KK: usize, const T: u8> Handler<Bcast<T>> for Probe<KK> {
 }
 impl<const KK: usize> Handler<()> for Probe<KK> {
     async fn handle(&mut self, _ctx: &mut Context<Self>, _msg: ()) {
-        self.aux(Mk::Unit, 0).await
+        // `()` carries no id: give the invocation a fresh one (0 is reserved for "no message", e.g. pings)
+        self.aux(Mk::Unit, log::uid()).await
     }
 }
 
